@@ -103,6 +103,71 @@ struct EqCmpInt { friend bool operator==(EqCmpInt const&, int); };
 struct alignas(32) OverAligned { char c; };
 struct AssignFromInt { AssignFromInt& operator=(int) noexcept; };
 struct NoValue { };
+// ---- conjunct violators: for every conjunct of a multi-requirement concept one type that fails (ideally only) that conjunct
+struct AssignRetVal { AssignRetVal operator=(int); };
+struct AssignRetVoid { void operator=(int); };
+struct ExplicitDeleted { ExplicitDeleted(long); template <class T> explicit ExplicitDeleted(T) = delete; };
+struct NoCopyFromMutable { NoCopyFromMutable(); NoCopyFromMutable(NoCopyFromMutable const&); NoCopyFromMutable(NoCopyFromMutable&) = delete; NoCopyFromMutable(NoCopyFromMutable&&); };
+struct CopyFromMutableOnly { CopyFromMutableOnly(); CopyFromMutableOnly(CopyFromMutableOnly&); CopyFromMutableOnly(CopyFromMutableOnly&&); };
+struct NoConstRvalue { NoConstRvalue(); NoConstRvalue(NoConstRvalue const&); NoConstRvalue(NoConstRvalue&&); NoConstRvalue(NoConstRvalue const&&) = delete; };
+struct ExplicitCopy { ExplicitCopy(); explicit ExplicitCopy(ExplicitCopy const&); ExplicitCopy(ExplicitCopy&&); };
+struct ExplicitMove { ExplicitMove(); explicit ExplicitMove(ExplicitMove&&); };
+struct NoCopyAssign { NoCopyAssign() = default; NoCopyAssign(NoCopyAssign const&) = default; NoCopyAssign(NoCopyAssign&&) = default; NoCopyAssign& operator=(NoCopyAssign&&) = default; NoCopyAssign& operator=(NoCopyAssign const&) = delete; };
+struct NoAssignFromMutable { NoAssignFromMutable() = default; NoAssignFromMutable(NoAssignFromMutable const&) = default; NoAssignFromMutable& operator=(NoAssignFromMutable const&); NoAssignFromMutable& operator=(NoAssignFromMutable&) = delete; NoAssignFromMutable& operator=(NoAssignFromMutable&&); };
+struct NoAssignConstRvalue { NoAssignConstRvalue() = default; NoAssignConstRvalue(NoAssignConstRvalue const&) = default; NoAssignConstRvalue& operator=(NoAssignConstRvalue const&); NoAssignConstRvalue& operator=(NoAssignConstRvalue&&); NoAssignConstRvalue& operator=(NoAssignConstRvalue const&&) = delete; };
+struct NoMoveAssign { NoMoveAssign() = default; NoMoveAssign(NoMoveAssign&&) = default; NoMoveAssign& operator=(NoMoveAssign&&) = delete; };
+struct NoMoveCtor { NoMoveCtor() = default; NoMoveCtor(NoMoveCtor&&) = delete; NoMoveCtor& operator=(NoMoveCtor&&); };
+struct ExplicitDefault { explicit ExplicitDefault() = default; };
+struct AggExplicitMember { ExplicitDefault e; };
+struct AmbA : Empty { };
+struct AmbB : Empty { };
+struct Ambiguous : AmbA, AmbB { };
+struct EqNoNe { friend bool operator==(EqNoNe const&, EqNoNe const&); friend bool operator!=(EqNoNe const&, EqNoNe const&) = delete; };
+struct ExplicitBool { explicit operator bool() const; };
+struct BoolLike { operator bool() const; };
+struct BoolNoNot { operator bool() const; void operator!() const; };
+struct EqRetExplicit { friend ExplicitBool operator==(EqRetExplicit const&, EqRetExplicit const&); friend ExplicitBool operator!=(EqRetExplicit const&, EqRetExplicit const&); };
+struct EqRetBoolLike { friend BoolLike operator==(EqRetBoolLike const&, EqRetBoolLike const&); friend BoolLike operator!=(EqRetBoolLike const&, EqRetBoolLike const&); };
+struct EqNonConst { bool operator==(EqNonConst const&); bool operator!=(EqNonConst const&); };
+struct EqNoDefault { EqNoDefault(int); friend bool operator==(EqNoDefault const&, EqNoDefault const&); };
+struct SwapOneWay { friend void swap(SwapOneWay&, int&); };
+// ---- callable family with deliberately partial / asymmetric overload sets and qualifiers (parts k0, k1)
+struct KA { };
+struct KB { };
+struct KD : KA { };
+struct Key { friend bool operator<(Key, int); friend bool operator<(Key, Key); };
+struct RelAll { bool operator()(KA, KA) const; bool operator()(KB, KB) const; bool operator()(KA, KB) const; bool operator()(KB, KA) const; };
+struct RelNoBA { bool operator()(KA, KA) const; bool operator()(KB, KB) const; bool operator()(KA, KB) const; };
+struct RelNoAB { bool operator()(KA, KA) const; bool operator()(KB, KB) const; bool operator()(KB, KA) const; };
+struct RelNoAA { bool operator()(KB, KB) const; bool operator()(KA, KB) const; bool operator()(KB, KA) const; };
+struct RelNoBB { bool operator()(KA, KA) const; bool operator()(KA, KB) const; bool operator()(KB, KA) const; };
+struct RelOnlyAB { bool operator()(KA, KB) const; };
+struct RelRetExplicit { ExplicitBool operator()(KA, KA) const; ExplicitBool operator()(KB, KB) const; ExplicitBool operator()(KA, KB) const; ExplicitBool operator()(KB, KA) const; };
+struct RelRetBoolLike { BoolLike operator()(KA, KA) const; BoolLike operator()(KB, KB) const; BoolLike operator()(KA, KB) const; BoolLike operator()(KB, KA) const; };
+struct RelRetMixed { bool operator()(KA, KA) const; bool operator()(KB, KB) const; bool operator()(KA, KB) const; ExplicitBool operator()(KB, KA) const; };
+struct RelNonConst { bool operator()(KA, KA); bool operator()(KB, KB); bool operator()(KA, KB); bool operator()(KB, KA); };
+struct RelLref { bool operator()(KA, KA) &; bool operator()(KB, KB) &; bool operator()(KA, KB) &; bool operator()(KB, KA) &; };
+struct RelRefArgs { bool operator()(KA&, KA&) const; bool operator()(KB const&, KB const&) const; bool operator()(KA&, KB const&) const; bool operator()(KB const&, KA&) const; };
+struct TransLess { template <class T, class U> auto operator()(T&& t, U&& u) const -> decltype(static_cast<T&&>(t) < static_cast<U&&>(u)); };
+struct FnLref { bool operator()(KA) &; };
+struct FnRref { bool operator()(KA) &&; };
+struct FnConst { bool operator()(KA) const; };
+struct FnNonConst { bool operator()(KA); };
+struct FnConstLrefOnly { bool operator()(KA) const&; bool operator()(KA) && = delete; };
+struct FnNoexcept { bool operator()(KA) const noexcept; };
+struct FnOverloadCv { int operator()(KA) &; bool operator()(KA) const&; void operator()(KA) &&; };
+struct FnNullary { bool operator()() const; };
+struct FnTakesRef { bool operator()(KA&) const; };
+struct FnTakesRvalue { bool operator()(KA&&) const; };
+struct FnTakesPtr { bool operator()(void*) const; };
+struct FnTakesInt { bool operator()(int) const; bool operator()(KA) const = delete; };
+struct PredBoolLike { BoolLike operator()(KA) const; };
+struct PredExplicit { ExplicitBool operator()(KA) const; };
+struct PredNotBool { KB operator()(KA) const; };
+struct PredNoNot { BoolNoNot operator()(KA) const; };
+struct PredVoid { void operator()(KA) const; };
+struct PredPtr { void* operator()(KA) const; };
+struct PredRef { bool& operator()(KA) const; };
 } // namespace z
 '''
 
@@ -118,6 +183,7 @@ class Base:
         self.inc = kw.get("inc", False)
         self.trivial_kind = kw.get("trivial_kind", False)   # int, float, plain struct (non-trivial rule)
         self.rel = kw.get("rel", ())    # families for pair generation
+        self.special = kw.get("special", False)   # callable family: only used by the parts k0 / k1
 
 
 BASES = []
@@ -162,6 +228,17 @@ CLASSES = {
     "MixedAccess": "mixed_access_class", "EqCmp": "comparable_class", "EqCmpInt": "comparable_class",
     "OverAligned": "overaligned_class", "AssignFromInt": "converting_class",
 }
+CLASSES.update({
+    "AssignRetVal": "assign_result_class", "AssignRetVoid": "assign_result_class", "ExplicitDeleted": "converting_class",
+    "NoCopyFromMutable": "partial_copy_class", "CopyFromMutableOnly": "partial_copy_class", "NoConstRvalue": "partial_copy_class",
+    "ExplicitCopy": "explicit_copy_class", "ExplicitMove": "explicit_copy_class", "NoCopyAssign": "partial_assign_class",
+    "NoAssignFromMutable": "partial_assign_class", "NoAssignConstRvalue": "partial_assign_class",
+    "NoMoveAssign": "partial_assign_class", "NoMoveCtor": "partial_copy_class", "ExplicitDefault": "explicit_default_class",
+    "AggExplicitMember": "explicit_default_class", "Ambiguous": "ambiguous_base_class", "EqNoNe": "comparable_class",
+    "ExplicitBool": "converting_class", "BoolLike": "converting_class", "BoolNoNot": "converting_class",
+    "EqRetExplicit": "comparable_class", "EqRetBoolLike": "comparable_class", "EqNonConst": "comparable_class",
+    "EqNoDefault": "comparable_class", "SwapOneWay": "adl_swap_class", "KA": "empty_class", "KB": "empty_class", "Key": "comparable_class",
+})
 for c, cl in CLASSES.items():
     B("z::" + c, "class", cl, abstract=c in ("Abstract", "AbstractPD"), trivial_kind=(c == "Agg"),
       rel=("hier",) if cl in ("derived_class",) or c in ("Empty", "Agg", "Poly", "Abstract") else ())
@@ -188,6 +265,21 @@ MEMPTRS = [("int z::Agg::*", "mdp", "int Agg::*", ""), ("int const z::Agg::*", "
 for cpp, kind, pre, suf in MEMPTRS:
     B(cpp, kind, "member_object_pointer" if kind == "mdp" else "member_function_pointer", prefix=pre, suffix=suf,
       inc="Incomplete" in cpp, rel=("callable",) if "Incomplete" not in cpp else ())
+
+CALLABLE_CLASSES = ["KD", "RelAll", "RelNoBA", "RelNoAB", "RelNoAA", "RelNoBB", "RelOnlyAB", "RelRetExplicit", "RelRetBoolLike", "RelRetMixed",
+                    "RelNonConst", "RelLref", "RelRefArgs", "TransLess", "FnLref", "FnRref", "FnConst", "FnNonConst", "FnConstLrefOnly",
+                    "FnNoexcept", "FnOverloadCv", "FnNullary", "FnTakesRef", "FnTakesRvalue", "FnTakesPtr", "FnTakesInt", "PredBoolLike",
+                    "PredExplicit", "PredNotBool", "PredNoNot", "PredVoid", "PredPtr", "PredRef"]
+for c in CALLABLE_CLASSES:
+    B("z::" + c, "class", "callable_class", special=True)
+for ret, sig in (("bool", "(KA, KB)"), ("bool", "(KA, KA)"), ("bool", "(KA, KA) noexcept"), ("BoolLike", "(KA&, KB const&)")):
+    B(("z::" if ret == "BoolLike" else "") + ret + sig.replace("KA", "z::KA").replace("KB", "z::KB"), "func", "function", prefix=ret, suffix=sig, special=True)
+for cpp, kind, pre, suf in (("bool (z::KA::*)(z::KB) const", "mfp", "bool (KA::*", ")(KB) const"),
+                            ("bool (z::KA::*)(z::KB) &", "mfp", "bool (KA::*", ")(KB) &"),
+                            ("bool (z::KA::*)(z::KB) &&", "mfp", "bool (KA::*", ")(KB) &&"),
+                            ("bool (z::KA::*)(z::KA) noexcept", "mfp", "bool (KA::*", ")(KA) noexcept"),
+                            ("bool z::KA::*", "mdp", "bool KA::*", ""), ("z::ExplicitBool z::KA::*", "mdp", "ExplicitBool KA::*", "")):
+    B(cpp, kind, "member_object_pointer" if kind == "mdp" else "member_function_pointer", prefix=pre, suffix=suf, special=True)
 
 DECS = ["const", "volatile", "*", "&", "&&", "[3]", "[]"]
 
@@ -444,7 +536,64 @@ BINARY_CONCEPTS = ("same_as derived_from convertible_to common_reference_with co
                    "constructible_from invocable regular_invocable predicate").split()
 TERNARY_CONCEPTS = "relation equivalence_relation strict_weak_order constructible_from invocable predicate".split()
 
-PARTS = ["u0", "u1", "u2", "u3", "u4", "u5", "u6", "u7", "u8", "t0", "t1", "b0", "b1", "b2", "b3", "b4", "c0", "c1", "m0"]
+PARTS = ["u0", "u1", "u2", "u3", "u4", "u5", "u6", "u7", "u8", "t0", "t1", "b0", "b1", "b2", "b3", "b4", "c0", "c1", "m0", "k0", "k1"]
+
+# ---- fixed tuples: for each conjunct of a multi-requirement concept (and the trait it rests on) a tuple that violates that
+# conjunct, present in BOTH tiers independent of the seed.  (base spelling, decorator chain) per argument.
+def _t(cpp, *chain):
+    return (cpp, tuple(chain))
+
+
+FIXED_TUPLES = {
+    # assignable_from = is_lvalue_reference<LHS> /\ { lhs = rhs } -> same_as<LHS>  (std: /\ common_reference_with)
+    "assignable_from": [[_t("z::AssignRetVal"), _t("int")], [_t("z::AssignRetVoid", "&"), _t("int")], [_t("z::KA", "&"), _t("z::KB")],
+                        [_t("z::AssignFromInt", "&"), _t("int")], [_t("int"), _t("int")], [_t("int", "&"), _t("int")],
+                        [_t("z::KA", "&"), _t("z::KA")], [_t("z::KA", "&&"), _t("z::KA")], [_t("int", "const", "&"), _t("int")]],
+    # convertible_to = is_convertible /\ static_cast<To>(from)
+    "convertible_to": [[_t("int"), _t("z::ExplicitDeleted")], [_t("int"), _t("z::ExplicitFromInt")], [_t("int"), _t("z::ImplicitFromInt")],
+                       [_t("z::KD", "*"), _t("z::KA", "*")], [_t("z::KA", "*"), _t("z::KD", "*")], [_t("z::ExplicitBool"), _t("bool")],
+                       [_t("z::BoolLike"), _t("bool")]],
+    # derived_from = is_base_of /\ is_convertible<D cv*, B cv*>
+    "derived_from": [[_t("z::Ambiguous"), _t("z::Empty")], [_t("z::PrivDerived"), _t("z::Agg")], [_t("int"), _t("int")],
+                     [_t("z::Derived"), _t("z::Agg")], [_t("z::Agg"), _t("z::Derived")], [_t("z::Derived", "const"), _t("z::Agg")],
+                     [_t("z::KA"), _t("z::KA")], [_t("z::KD"), _t("z::KA", "volatile")], [_t("z::MultiDerived"), _t("z::Empty")]],
+    # constructible_from = destructible /\ is_constructible
+    "constructible_from": [[_t("z::ThrowDtor"), _t("z::ThrowDtor")], [_t("z::KA"), _t("z::KB")], [_t("z::ExplicitFromInt"), _t("int")],
+                           [_t("z::ExplicitDeleted"), _t("int")], [_t("z::KA"), _t("z::KD")], [_t("z::KD"), _t("z::KA")]],
+    "is_swappable_with": [[_t("z::SwapOneWay", "&"), _t("int", "&")], [_t("int", "&"), _t("z::SwapOneWay", "&")],
+                          [_t("z::SwapWithInt", "&"), _t("int", "&")], [_t("int", "&"), _t("z::SwapWithInt", "&")],
+                          [_t("z::KA", "&"), _t("z::KA", "&")], [_t("z::KA", "&"), _t("z::KB", "&")]],
+}
+FIXED_TUPLES["is_convertible"] = FIXED_TUPLES["convertible_to"]
+FIXED_TUPLES["is_nothrow_convertible"] = FIXED_TUPLES["convertible_to"]
+FIXED_TUPLES["is_constructible"] = FIXED_TUPLES["constructible_from"] + [list(reversed(x)) for x in FIXED_TUPLES["convertible_to"]]
+FIXED_TUPLES["is_base_of"] = [list(reversed(x)) for x in FIXED_TUPLES["derived_from"]]
+FIXED_TUPLES["is_assignable"] = FIXED_TUPLES["assignable_from"]
+FIXED_TUPLES["is_nothrow_swappable_with"] = FIXED_TUPLES["is_swappable_with"]
+
+
+def fixed_tuples(trait, lv, names):
+    byname = {t.base.cpp: t for t in lv[0]}
+    out = []
+    for tup in FIXED_TUPLES.get(trait, []):
+        ts = []
+        for cpp, chain in tup:
+            t = byname[cpp]
+            for d in chain:
+                t = t.decorate(d)
+            ts.append(names[t.name])
+        out.append(ts)
+    return out
+
+
+# ---- callable family (parts k0 / k1)
+K_ARGS = [_t("z::KA"), _t("z::KB"), _t("z::KA", "&"), _t("z::KA", "const", "&"), _t("z::KA", "&&"), _t("int"), _t("void", "*")]
+K_ARGS_EXTRA = [_t("z::Key"), _t("z::KD"), _t("z::KB", "const", "&"), _t("z::KA", "*"), _t("z::KD", "&")]
+K_FDECS = [(), ("const", "&"), ("&",), ("&&",), ("const",)]
+K_RELS = ["z::RelAll", "z::RelNoBA", "z::RelNoAB", "z::RelNoAA", "z::RelNoBB", "z::RelOnlyAB", "z::RelRetExplicit", "z::RelRetBoolLike",
+          "z::RelRetMixed", "z::RelNonConst", "z::RelLref", "z::RelRefArgs", "z::TransLess", "bool(z::KA, z::KB)", "bool(z::KA, z::KA)",
+          "z::BoolLike(z::KA&, z::KB const&)", "z::LessInt", "bool(int, int)"]
+K_INVOCABLE = {"is_invocable": "V", "invoke_result": "T", "invocable": "C", "regular_invocable": "C", "predicate": "C"}
 
 
 NOTHROW_CTOR = ("is_nothrow_constructible", "is_nothrow_default_constructible", "is_nothrow_copy_constructible",
@@ -516,16 +665,18 @@ def unary_tag(trait, t):
 # ------------------------------------------------------------------------------------------------ sampling sizes
 SIZES = {
     # unary: all depth-0 types always; n1/n2 sampled depth-1/depth-2 types per trait (None = all)
-    "quick": {"u_n1": 40, "u_n2": 40, "c_n1": 30, "c_n2": 30, "pairs": 200, "cpairs": 120, "ratio_n": 14, "lists": 6},
-    "thorough": {"u_n1": 180, "u_n2": 220, "c_n1": 120, "c_n2": 120, "pairs": 700, "cpairs": 450, "ratio_n": 30, "lists": 40},
+    "quick": {"u_n1": 40, "u_n2": 40, "c_n1": 30, "c_n2": 30, "pairs": 200, "cpairs": 120, "ratio_n": 14, "lists": 6,
+              "k_fdecs": 1, "k_tuples": 3, "k_relpairs": 4, "k_relfdecs": 2},
+    "thorough": {"u_n1": 180, "u_n2": 220, "c_n1": 120, "c_n2": 120, "pairs": 700, "cpairs": 450, "ratio_n": 30, "lists": 40,
+                 "k_fdecs": 2, "k_tuples": 6, "k_relpairs": 14, "k_relfdecs": 3},
 }
 
 
 def unary_types(lv, dom, trait, seed, tier, keys=("u_n1", "u_n2")):
     sz = SIZES[tier]
-    out = [t for t in lv[0] if dom(t)]
+    out = [t for t in lv[0] if dom(t) and not t.base.special]
     for level, key in ((1, keys[0]), (2, keys[1])):
-        pool = [t for t in lv[level] if dom(t)]
+        pool = [t for t in lv[level] if dom(t) and not t.base.special]
         n = sz[key]
         if n is None or n >= len(pool):
             out += pool
@@ -547,10 +698,11 @@ def unary_obligation(trait, kind, t):
 
 # ------------------------------------------------------------------------------------------------ pairs
 HIER = ["Empty", "Agg", "Poly", "Abstract", "Derived", "DerivedEmpty", "PrivDerived", "VirtDerived", "MultiDerived",
-        "AbstractImpl", "PolyFinal"]
+        "AbstractImpl", "PolyFinal", "Ambiguous"]
 CONVF = ["int", "long", "bool", "char", "double", "float", "unsigned int", "short", "z::E0", "z::SE", "z::EU8",
          "z::ToInt", "z::ImplicitFromInt", "z::ExplicitFromInt", "z::ExplicitToBool", "z::ToAggRef", "z::Agg",
-         "z::AssignFromInt", "decltype(nullptr)", "void", "z::Lambda", "z::SwapWithInt", "z::EqCmpInt"]
+         "z::AssignFromInt", "decltype(nullptr)", "void", "z::Lambda", "z::SwapWithInt", "z::EqCmpInt", "z::ExplicitDeleted",
+         "z::AssignRetVal", "z::AssignRetVoid", "z::SwapOneWay", "z::BoolLike", "z::ExplicitBool"]
 CALLABLE = ["void()", "int(int)", "void(...)", "void() noexcept", "z::Agg(z::Agg&, int)", "bool(int, int)",
             "z::Functor", "z::LessInt", "z::Lambda", "int z::Agg::*", "int const z::Agg::*", "void (z::Poly::*)()",
             "int (z::Agg::*)(int) const", "void (z::Agg::*)() noexcept", "void (z::Agg::*)() &",
@@ -574,8 +726,8 @@ def gen_pairs(lv, names, seed, what, n):
     """deterministic seeded list of ordered type pairs (no incomplete types) from five families"""
     rng = seeded(seed, "pairs", what)
     byname = {t.base.cpp: t for t in lv[0]}
-    pool = [t for lvl in lv for t in lvl if not t.inc]
-    p0 = [t for t in lv[0] if not t.inc]
+    pool = [t for lvl in lv for t in lvl if not t.inc and not t.base.special]
+    p0 = [t for t in lv[0] if not t.inc and not t.base.special]
     out, seen = [], set()
 
     def add(a, b):
@@ -651,6 +803,8 @@ def build_obligations(part, lv, allt, names, seed, tier):
                 continue
             what = "invocable" if trait in ("is_invocable", "invoke_result") else "generic"
             pairs = gen_pairs(lv, names, seed, what, sz["pairs"])
+            have_pairs = set((a.name, b.name) for a, b in pairs)
+            pairs = pairs + [(x[0], x[1]) for x in fixed_tuples(trait, lv, names) if (x[0].name, x[1].name) not in have_pairs]
             for a, b in pairs:
                 obs.append(Ob("%s<%s, %s>" % (trait, a.name, b.name), pair_tag(trait, (a, b)), pair_flags((a, b)),
                               "c15::%s_%s<%s, %s>()" % (kind, trait, A(a), A(b)), "binary"))
@@ -676,7 +830,7 @@ def build_obligations(part, lv, allt, names, seed, tier):
     elif part == "c1":
         for cn in BINARY_CONCEPTS:
             what = "invocable" if cn in ("invocable", "regular_invocable", "predicate") else "generic"
-            for a, b in gen_pairs(lv, names, seed, what, sz["cpairs"]):
+            for a, b in gen_pairs(lv, names, seed, what, sz["cpairs"]) + [(x[0], x[1]) for x in fixed_tuples(cn, lv, names)]:
                 obs.append(Ob("%s<%s, %s>" % (cn, a.name, b.name), pair_tag(cn, (a, b)), pair_flags((a, b)),
                               "c15::C_%s<%s, %s>()" % (cn, A(a), A(b)), "concepts"))
         rels = ["bool(int, int)", "z::LessInt", "z::Functor", "z::Lambda", "int", "void (z::Poly::*)()", "int(int)"]
@@ -743,7 +897,7 @@ def build_obligations(part, lv, allt, names, seed, tier):
                                   "c15::R_%s<%s>()" % (op, targ), "ratio"))
         # ---- _meta list operations against hand expansion (expected results computed here)
         rng = seeded(0, "meta")
-        p0 = [t for t in lv[0] if not t.inc]
+        p0 = [t for t in lv[0] if not t.inc and not t.base.special]
         for li in range(sz["lists"]):
             k = rng.randrange(1, 6)
             elems = [rng.choice(p0[:40]) for _ in range(k)]
@@ -802,7 +956,7 @@ def build_obligations(part, lv, allt, names, seed, tier):
         for ln in (1, 2, 3, 4, 7, 8, 16, 17, 64):
             for al in (1, 2, 4, 8, 16, 32):
                 obs.append(Ob("aligned_storage<%d, %d>" % (ln, al), "aligned_storage", 1, "c15::X_aligned_storage<%d, %d>()" % (ln, al), "misc"))
-        objs = [t for t in lv[0] if t.cat == "obj" and t.complete_obj and not t.abstract and t.base.kind != "func"]
+        objs = [t for t in lv[0] if t.cat == "obj" and t.complete_obj and not t.abstract and t.base.kind != "func" and not t.base.special]
         rng = seeded(0, "aligned_union")
         for _ in range(40 if tier == "quick" else 300):
             ln = rng.choice((0, 1, 3, 8, 24, 100))
@@ -810,6 +964,56 @@ def build_obligations(part, lv, allt, names, seed, tier):
             obs.append(Ob("aligned_union<%d, %s>" % (ln, ", ".join(t.name for t in ts)), "aligned_union", pair_flags(ts),
                           "c15::X_aligned_union<%d, %s>()" % (ln, ", ".join(A(t) for t in ts)), "misc"))
         obs.append(Ob("is_constant_evaluated()", "is_constant_evaluated", 0, "c15::X_is_constant_evaluated()", "misc"))
+    elif part in ("k0", "k1"):
+        def mk(spec):
+            t = byname[spec[0]]
+            for d in spec[1]:
+                t = t.decorate(d)
+            return names[t.name]
+        args7 = [mk(a) for a in K_ARGS]
+        argsx = args7 + [mk(a) for a in K_ARGS_EXTRA]
+        A_, B_ = args7[0], args7[1]
+
+        def fdecs_for(f, n, rng, always=((), ("const", "&"))):
+            """decorated forms of the callable f: the plain one, const& and n seeded others (function types: *, &)"""
+            if f.cat == "func":
+                chains = [(), ("*",), ("&",), ("*", "const")]
+                return [names[apply_chain(f, c).name] for c in chains[: 2 + n]]
+            rest = [c for c in K_FDECS if c not in always]
+            chains = list(always) + rng.sample(rest, min(n, len(rest)))
+            return [names[apply_chain(f, c).name] for c in chains]
+
+        def nary(kind, trait, ts, sub):
+            nm = "%s<%s>" % (trait, ", ".join(t.name for t in ts))
+            return Ob(nm, pair_tag(trait, ts), pair_flags(ts) | 1, "c15::%s_%s<%s>()" % (kind, trait, ", ".join(A(t) for t in ts)), sub)
+        if part == "k0":
+            callables = [t for t in lv[0] if t.base.special and t.base.cpp != "z::KD"] + [byname[x] for x in ("z::Functor", "z::LessInt", "z::Lambda")]
+            canon = [(), (A_,), (A_, A_), (A_, B_), (B_, A_), (B_, B_), (args7[2],), (args7[3],)]
+            alltup = [(a,) for a in argsx] + [(a, b) for a in argsx for b in argsx]
+            for f in callables:
+                rng = seeded(seed, "k0", f.name)
+                for fd in fdecs_for(f, sz["k_fdecs"], rng, always=((),)):
+                    tups = canon + rng.sample(alltup, sz["k_tuples"])
+                    for tup in tups:
+                        for trait, kind in K_INVOCABLE.items():
+                            obs.append(nary(kind, trait, (fd,) + tuple(tup), "concepts" if kind == "C" else "binary"))
+                for r in (byname["bool"], byname["void"], byname["z::BoolLike"]):
+                    for tup in canon[1:6]:
+                        obs.append(nary("V", "is_invocable_r", (r, f) + tuple(tup), "binary"))
+        else:
+            extra_pairs = [(mk(_t("z::Key")), byname["int"]), (byname["int"], mk(_t("z::Key"))), (mk(_t("z::Key")), mk(_t("z::Key"))),
+                           (mk(_t("z::KD")), A_), (A_, mk(_t("z::KD")))]
+            allpairs = [(a, b) for a in args7 for b in args7] + extra_pairs
+            canon = [(A_, B_), (B_, A_), (A_, A_), (B_, B_)] + extra_pairs[:2]
+            for rn in K_RELS:
+                r0 = byname[rn]
+                rng = seeded(seed, "k1", rn)
+                for r in fdecs_for(r0, sz["k_relfdecs"] - 2, rng):
+                    for a, b in allpairs:
+                        obs.append(nary("C", "relation", (r, a, b), "concepts"))
+                    for cn in ("equivalence_relation", "strict_weak_order"):
+                        for a, b in canon + rng.sample(allpairs, sz["k_relpairs"]):
+                            obs.append(nary("C", cn, (r, a, b), "concepts"))
     else:
         raise SystemExit("unknown part " + part)
     # unique names; drop what the standard leaves unspecified
@@ -875,6 +1079,19 @@ def resolve_name(name, part, lv, allt, names, seed):
                     continue
                 tag = pair_tag(trait, ts)
                 return Ob(name, tag, pair_flags(ts), "c15::C_%s<%s>()" % (trait, ", ".join(A(t) for t in ts)), "concepts")
+    if part in ("k0", "k1"):
+        m2 = re.match(r"^([A-Za-z_0-9]+)<(.*)>$", name)
+        fam = set(K_INVOCABLE) | {"is_invocable_r"} if part == "k0" else {"relation", "equivalence_relation", "strict_weak_order"}
+        if m2 and m2.group(1) in fam:
+            trait = m2.group(1)
+            kind = {"is_invocable": "V", "is_invocable_r": "V", "invoke_result": "T"}.get(trait, "C")
+            for ts in split_args(m2.group(2), names, k_max=4):
+                if any(t.inc for t in ts) or not any(t.base.special or t.base.cpp in ("z::KA", "z::KB", "z::Key") for t in ts):
+                    continue
+                if std_unspecified(trait, ts):
+                    continue
+                return Ob(name, pair_tag(trait, ts), pair_flags(ts) | 1, "c15::%s_%s<%s>()" % (kind, trait, ", ".join(A(t) for t in ts)),
+                          "concepts" if kind == "C" else "binary")
     if part == "m0":
         for o in build_obligations("m0", lv, allt, names, seed, "thorough"):
             if o.name == name:
